@@ -147,6 +147,21 @@ def generate(rng, tier, seed):
             c.pred("psec unwrap = specification verifier on canonical strings", p)
             c.nontrivial = True
             yield c
+        # authentic blocks (built by the specification under the KBPK) whose clear key data is wrong or borderline behind a
+        # correct MAC: bit length not a multiple of 8, longer than the data, exactly filling it (no padding), zero
+        for ksize in ksizes:
+            kbpk = rb(rng, ksize)
+            for nblk, bits, note in [(2, 0x0081, "bad"), (2, 0x0007, "bad"), (1, 0xFFF8, "bad"), (2, 8 * (2 * bs - 1), "bad"),
+                                     (2, 8 * (2 * bs - 2), "fits-exactly"), (1, 8 * (bs - 2), "fits-exactly"), (1, 0, "zero-key"),
+                                     (3, 8 * 16, "ordinary"), (1, 8 * (bs - 1), "bad")]:
+                body = rb(rng, nblk * bs - 2)
+                clear = bits.to_bytes(2, "big") + body
+                h = make_header(rng, ver, rand_blocks(rng, rng.choice([0, 1])))
+                c = Case(f"{ver}:authentic-malformed-clear:{note}", {"bits": bits, "clear_len": len(clear)})
+                i = c.line("spec.tr31_build_raw\t" + "\t".join([enc_b(kbpk), enc_header(h), "s:", "i:0", enc_b(clear), "i:0"]))
+                valid = bits % 8 == 0 and bits // 8 + 2 <= len(clear)
+                c.deferred_raw = (kbpk, i, h, body[: bits // 8] if valid else None)
+                yield c
         for ksize in ksizes:
             for _ in range(6 * reps):
                 kbpk = rb(rng, ksize)
@@ -182,6 +197,27 @@ def second_pass(cases, replies):
     from core import call_impl
     extra = []
     for c, rep in zip(cases, replies):
+        dr = getattr(c, "deferred_raw", None)
+        if dr:
+            kbpk, i, h, want_key = dr
+            if not rep[i].startswith("ok\ts:"):
+                c.impl_fail.append("specification raw build failed: " + rep[i][:100])
+                continue
+            body = rep[i].split("\t")[1][2:]
+            s = "".join(chr(int(x)) for x in body.split(",")) if body else ""
+            r = call_impl("tr31.unwrap", (kbpk, s), stream="tr31")
+            c.calls.append({"fn": "tr31.unwrap", "args": [enc_b(kbpk), enc_s(s)], "entropy": "", "stream": "tr31"})
+            if want_key is None:
+                if r.ok:
+                    c.impl_fail.append(f"an authentic block whose key length prefix is invalid was unwrapped to a key of {len(r.value[1])} bytes")
+                elif r.err != "tr31":
+                    c.impl_fail.append(f"an authentic block with an invalid key length prefix escaped as {r.err}")
+            else:
+                if not r.ok:
+                    c.impl_fail.append(f"psec rejects an authentic block whose key fills the clear data as the prefix says: {r.exc!r}")
+                elif r.value[1] != want_key or header_tuple(r.value[0]) != header_tuple(h):
+                    c.impl_fail.append("psec unwraps an authentic block to a different key or header")
+            continue
         d = getattr(c, "deferred", None)
         if not d:
             continue
